@@ -14,6 +14,10 @@ def fold(log):
         if m:
             cur = m.group(3) or f"{m.group(1)}_{m.group(2)}"; data = {"signatures": {}, "checks_run": None}
             continue
+        m = re.match(r"##### /verif/seeded/(\w+)/patch.diff", line)
+        if m:
+            cur = m.group(1); data = {"signatures": {}, "checks_run": None}
+            continue
         if cur is None:
             continue
         m = re.match(r"(C\d\d) rc=(\d) *(.*)", line)
